@@ -99,6 +99,7 @@ const (
 	srcFixed  srcKind = iota // a constant
 	srcTagged                // derived from this XR's name and spec.params.tag
 	srcEcho                  // the observed connection detail FromKey of composed resource Res
+	srcEchoAll               // every observed connection detail of composed resource Res (as function-patch-and-transform style functions do)
 )
 
 // fnDetail is one composite connection detail a scripted function step emits.
@@ -172,6 +173,24 @@ type step struct {
 	Data map[string][]byte `json:"data,omitempty"`
 	Str  string            `json:"str,omitempty"`
 	Sec  *secretSpec       `json:"sec,omitempty"`
+	// Lag (reconcile, pipeline mode only): the reconciler's cached client lags behind for composed kinds - an
+	// object written exactly once is not in the cache yet - while its uncached client reads the live store.
+	Lag bool `json:"lag,omitempty"`
+}
+
+// foreign values never coincide with a value of this XR's own secrets, the scripted functions or the decoys.
+var foreignAlphabet = [][]byte{[]byte("FOREIGN-1"), []byte("FOREIGN-2")}
+
+func genForeignData() *rapid.Generator[map[string][]byte] {
+	return rapid.Custom(func(t *rapid.T) map[string][]byte {
+		out := map[string][]byte{}
+		for _, k := range keyAlphabet {
+			if rapid.IntRange(0, 3).Draw(t, "foreign-has-"+k) != 0 {
+				out[k] = rapid.SampledFrom(foreignAlphabet).Draw(t, "foreign-val-"+k)
+			}
+		}
+		return out
+	})
 }
 
 func genData(label string) *rapid.Generator[map[string][]byte] {
@@ -310,13 +329,15 @@ func genScenario(withClaim bool) *rapid.Generator[scenario] {
 			sc.Steps = rapid.IntRange(1, 2).Draw(t, "nsteps")
 			nd := rapid.IntRange(0, 5).Draw(t, "nfndetails")
 			for j := 0; j < nd; j++ {
-				d := fnDetail{Key: rapid.SampledFrom(keyAlphabet).Draw(t, "fd-key"), Kind: srcKind(rapid.IntRange(0, 2).Draw(t, "fd-kind")), Step: rapid.IntRange(0, sc.Steps-1).Draw(t, "fd-step")}
+				d := fnDetail{Key: rapid.SampledFrom(keyAlphabet).Draw(t, "fd-key"), Kind: srcKind(rapid.IntRange(0, 3).Draw(t, "fd-kind")), Step: rapid.IntRange(0, sc.Steps-1).Draw(t, "fd-step")}
 				switch d.Kind {
 				case srcFixed:
 					d.Val = rapid.SampledFrom(valAlphabet).Draw(t, "fd-val")
 				case srcEcho:
 					d.Res = sc.Res[rapid.IntRange(0, nres-1).Draw(t, "fd-res")].Name
 					d.FromKey = rapid.SampledFrom(keyAlphabet).Draw(t, "fd-fromkey")
+				case srcEchoAll:
+					d.Res = sc.Res[rapid.IntRange(0, nres-1).Draw(t, "fd-res")].Name
 				}
 				sc.FnDetails = append(sc.FnDetails, d)
 			}
@@ -354,8 +375,19 @@ func genHistory(sc scenario) *rapid.Generator[[]step] {
 			if sc.Claim != nil {
 				hi = 15
 			}
-			c := rapid.IntRange(-1, hi).Draw(t, "op")
+			lo := -1
+			if sc.Pipeline {
+				lo = -3
+			}
+			c := rapid.IntRange(lo, hi).Draw(t, "op")
 			switch {
+			case c <= -2:
+				// A user edits this XR's spec.resourceRefs to name a composed resource that ANOTHER XR controls
+				// (created by a single write, so a lagging cache does not hold it yet); the XR is reconciled next,
+				// because the reconciler rewrites the references.
+				out = append(out, step{Op: "foreignRef", XR: st.XR, Res: rapid.IntRange(0, len(sc.Res)-1).Draw(t, "res"), Data: genForeignData().Draw(t, "foreign-data")})
+				st.Op = "reconcile"
+				st.Lag = rapid.IntRange(0, 3).Draw(t, "foreign-lag") != 0
 			case c == -1:
 				// Somebody else puts (or removes) a same-named secret next to a namespaced composed resource.
 				st.Op = "decoy"
@@ -365,6 +397,7 @@ func genHistory(sc scenario) *rapid.Generator[[]step] {
 				}
 			case c <= 3:
 				st.Op = "reconcile"
+				st.Lag = sc.Pipeline && rapid.IntRange(0, 3).Draw(t, "lag") == 0
 			case c == 4 || c == 5:
 				st.Op = "provSecret"
 				st.Res = rapid.IntRange(0, len(sc.Res)-1).Draw(t, "res")
@@ -665,6 +698,10 @@ func (w *world) runner() composite.FunctionRunner {
 				if !ok {
 					continue
 				}
+				if c := verifsim.ControllerUID(o.GetResource().AsMap()); c != "" && c != w.uids[xrName] {
+					on, _ := verifsim.Nested(o.GetResource().AsMap(), "metadata", "name").(string)
+					w.fnFindings = append(w.fnFindings, fmt.Sprintf("function of XR %s (uid %s) was handed composed resource %q = %s %q, which is controlled by another UID %q, with connection details %s", xrName, w.uids[xrName], r.Name, r.Kind, on, c, fmtData(o.GetConnectionDetails())))
+				}
 				var want map[string][]byte
 				if r.SecretRef {
 					want = dataOf(w.env.Sim.Get(secretKey(r.refNS(), composedSecretName(xrName, r.Name))))
@@ -693,6 +730,12 @@ func (w *world) runner() composite.FunctionRunner {
 				if o, ok := obs[fd.Res]; ok {
 					if v, ok := o.GetConnectionDetails()[fd.FromKey]; ok {
 						d.Composite.ConnectionDetails[fd.Key] = append([]byte{}, v...)
+					}
+				}
+			case srcEchoAll:
+				if o, ok := obs[fd.Res]; ok {
+					for k, v := range o.GetConnectionDetails() {
+						d.Composite.ConnectionDetails[k] = append([]byte{}, v...)
 					}
 				}
 			}
@@ -941,7 +984,27 @@ type xrOutcome struct {
 	wrote      bool
 }
 
-func (w *world) reconcileXR(i int, rec *verifkit.Recorder, ctx string) xrOutcome {
+func isComposedKind(k verifsim.Key) bool { return k.Group == "example.org" && strings.HasPrefix(k.Kind, "Kind") }
+
+// foreignRefs counts the XR's stored resource references that name a live resource controlled by another UID.
+func (w *world) foreignRefs(xrName string) int {
+	xr := w.env.Sim.Get(w.env.XRKey(xrName))
+	l, _ := verifsim.Nested(xr, "spec", "resourceRefs").([]any)
+	n := 0
+	for _, e := range l {
+		m, _ := e.(map[string]any)
+		kind, _ := m["kind"].(string)
+		name, _ := m["name"].(string)
+		ns, _ := m["namespace"].(string)
+		o := w.env.Sim.Get(verifsim.Key{Group: "example.org", Kind: kind, Namespace: ns, Name: name})
+		if c := verifsim.ControllerUID(o); o != nil && c != "" && c != w.uids[xrName] {
+			n++
+		}
+	}
+	return n
+}
+
+func (w *world) reconcileXR(i int, lag bool, rec *verifkit.Recorder, ctx string) xrOutcome {
 	x := w.sc.XRs[i]
 	key := secretKey(xrNS, x.Secret)
 	before := w.env.Sim.Get(key)
@@ -950,8 +1013,33 @@ func (w *world) reconcileXR(i int, rec *verifkit.Recorder, ctx string) xrOutcome
 	delete(w.producedStep, x.Name)
 	w.fnFindings = nil
 	w.env.Recorder.Reset()
+	foreign := w.foreignRefs(x.Name)
 	run := w.env.Sim.NewRun(actorXR, nil)
-	_, rerr := w.env.Reconcile(run, x.Name)
+	var rerr error
+	if lag {
+		cached := run.StaleClient(func(k verifsim.Key) int {
+			if isComposedKind(k) {
+				return verifsim.LagHideNew
+			}
+			return 0
+		})
+		_, rerr = w.env.ReconcileWith(cached, run.Client(), x.Name)
+		rec.Label("xr:cache-lag")
+	} else {
+		_, rerr = w.env.Reconcile(run, x.Name)
+	}
+	switch {
+	case foreign > 0 && lag:
+		rec.Label("xr:foreign-controlled-ref+cache-miss")
+	case foreign > 0:
+		rec.Label("xr:foreign-controlled-ref+cache-hit")
+	}
+	composeFailed := false
+	for _, e := range w.env.Recorder.Warnings() {
+		if strings.HasPrefix(e.Message, "cannot compose resources") {
+			composeFailed = true // nothing is published by a reconcile whose composition failed
+		}
+	}
 	after := w.env.Sim.Get(key)
 	for _, f := range w.fnFindings {
 		w.fail("%s: %s", ctx, f)
@@ -1038,7 +1126,7 @@ func (w *world) reconcileXR(i int, rec *verifkit.Recorder, ctx string) xrOutcome
 			}
 		}
 		// All keys when the XRD lists none.
-		if len(w.sc.Filter) == 0 && controllableBy(before, uid) && rerr == nil && !conflict {
+		if len(w.sc.Filter) == 0 && controllableBy(before, uid) && rerr == nil && !conflict && !composeFailed {
 			ad := dataOf(after)
 			for k, v := range filtered {
 				if got, ok := ad[k]; !ok || !bytes.Equal(got, v) {
@@ -1242,6 +1330,37 @@ func (w *world) apply(st step) {
 		w.putSecret(r.refNS(), composedSecretName(x.Name, r.Name), secretSpec{State: stUnctlConn, Data: st.Data}, "", "", "", "", "")
 	case "decoy":
 		w.putDecoy(st.XR, st.Res, st.Data)
+	case "foreignRef":
+		r := w.sc.Res[st.Res]
+		name := "foreign-" + x.Name + "-" + r.Name
+		fk := verifsim.Key{Group: "example.org", Kind: r.Kind, Namespace: r.NS, Name: name}
+		if w.env.Sim.Get(fk) == nil {
+			// The other XR's composed resource and its connection secret. ONE write creates the resource.
+			on, ou := w.otherUIDFor(st.XR)
+			md := map[string]any{"name": name, "annotations": map[string]any{annName: r.Name},
+				"ownerReferences": []any{map[string]any{"apiVersion": "example.org/v1", "kind": "XThing", "name": on, "uid": ou, "controller": true, "blockOwnerDeletion": true}}}
+			if r.NS != "" {
+				md["namespace"] = r.NS
+			}
+			fo := verifsim.U(verifsim.Obj{"apiVersion": "example.org/v1", "kind": r.Kind, "metadata": md, "spec": map[string]any{
+				"forProvider":                map[string]any{"v": "foreign"},
+				"writeConnectionSecretToRef": map[string]any{"namespace": r.refNS(), "name": name + "-conn"},
+			}})
+			if err := w.env.Sim.Client("other-xr-controller").Create(ctx, fo); err != nil {
+				panic(err)
+			}
+			w.putSecret(r.refNS(), name+"-conn", secretSpec{State: stUnctlConn, Data: st.Data}, "", "", "", "", "")
+		}
+		xr := verifsim.U(w.env.Sim.Get(w.env.XRKey(x.Name)))
+		refs, _, _ := unstructured.NestedSlice(xr.Object, "spec", "resourceRefs")
+		ref := map[string]any{"apiVersion": "example.org/v1", "kind": r.Kind, "name": name}
+		if r.NS != "" {
+			ref["namespace"] = r.NS
+		}
+		_ = unstructured.SetNestedSlice(xr.Object, append(refs, ref), "spec", "resourceRefs")
+		if err := w.env.Sim.Client("user").Update(ctx, xr); err != nil {
+			panic(err)
+		}
 	case "provStatus":
 		r := w.sc.Res[st.Res]
 		for _, k := range w.env.Sim.AllKeys() {
@@ -1292,7 +1411,7 @@ func (w *world) run(hist []step, rec *verifkit.Recorder) (nontrivial bool) {
 		ctx := fmt.Sprintf("step %d %s", i, verifkit.JSON(st))
 		switch st.Op {
 		case "reconcile":
-			if o := w.reconcileXR(st.XR, rec, ctx); o.nontrivial {
+			if o := w.reconcileXR(st.XR, st.Lag && w.sc.Pipeline, rec, ctx); o.nontrivial {
 				nontrivial = true
 			}
 		case "claim":
@@ -1309,7 +1428,7 @@ func (w *world) run(hist []step, rec *verifkit.Recorder) (nontrivial bool) {
 // ---------------------------------------------------------------------------
 // properties
 
-const ruleXR = "scenario = 1-2 XRs (with/without writeConnectionSecretToRef, optionally the same secret name) + XRD key filter + Composition (1-2 scripted function steps returning composite connection details, or P&T templates with connectionDetails of every type incl. malformed ones) + composed resources that are cluster-scoped or namespaced (ns-a/ns-b) with a connection secret reference into the same or ANOTHER namespace, and a same-named foreign secret (decoy) in the composed resource's own namespace present or absent + pre-existing secret state at the XR's secret name; history = XR reconciles interleaved with decoy appearance/removal, provider writes of composed resources' secrets/status, tag changes and outside replacement of the XR secret; every Secret write request in the server's log of each reconcile is judged. Non-trivial = a reconcile of an XR with a secret ref whose composition completed and (the filter excludes a produced key or a secret already exists at the destination)"
+const ruleXR = "scenario = 1-2 XRs (with/without writeConnectionSecretToRef, optionally the same secret name) + XRD key filter + Composition (1-2 scripted function steps returning composite connection details, or P&T templates with connectionDetails of every type incl. malformed ones) + composed resources that are cluster-scoped or namespaced (ns-a/ns-b) with a connection secret reference into the same or ANOTHER namespace, and a same-named foreign secret (decoy) in the composed resource's own namespace present or absent + pre-existing secret state at the XR's secret name; history = XR reconciles (pipeline mode: optionally with a cached client that lags for composed kinds - objects written once are hidden - and a live uncached client) interleaved with a user editing the XR's resourceRefs to name a composed resource controlled by ANOTHER XR (created by a single write, with its own connection secret of distinctive values), decoy appearance/removal, provider writes of composed resources' secrets/status, tag changes and outside replacement of the XR secret; every Secret write request in the server's log of each reconcile is judged. Non-trivial = a reconcile of an XR with a secret ref whose composition completed and (the filter excludes a produced key or a secret already exists at the destination)"
 
 func TestVerifC09XR(t *testing.T) {
 	rec := verifkit.New(t, "C09", ruleXR)
@@ -1462,6 +1581,29 @@ func TestVerifC09Pinned(t *testing.T) {
 		}},
 		{"pipeline-cross-namespace-ref-decoy-appears-later", nsPipe(nil, nil), []step{{Op: "provSecret", Data: map[string][]byte{"d": []byte("s3cr3t")}}, rc(0), rc(0), {Op: "decoy", Data: dec}, {Op: "tag", Str: "t2"}, rc(0)}, func(t *testing.T, w *world) {
 			wantData(t, w, xrKey, map[string][]byte{"a": taggedValue("xr1", "t2", "a"), "b": []byte("v1"), "c": []byte("s3cr3t")}, w.uids["xr1"])
+		}},
+	}...)
+	// This XR's references name a resource another XR controls; the lagging cache does not hold it yet.
+	foreign := map[string][]byte{"d": []byte("FOREIGN-1"), "a": []byte("FOREIGN-2")}
+	echoAll := func() scenario {
+		sc := pipe(nil, xr1(true, secretSpec{}), nil)
+		sc.FnDetails = append(sc.FnDetails, fnDetail{Key: "x", Kind: srcEchoAll, Res: "r0", Step: 0})
+		return sc
+	}
+	rows = append(rows, []struct {
+		name   string
+		sc     scenario
+		hist   []step
+		expect func(t *testing.T, w *world)
+	}{
+		{"foreign-ref-cache-miss-own-resource-exists", echoAll(), []step{{Op: "provSecret", Data: map[string][]byte{"d": []byte("s3cr3t")}}, rc(0), rc(0), {Op: "foreignRef", Data: foreign}, {Op: "reconcile", Lag: true}, {Op: "tag", Str: "t2"}, {Op: "foreignRef", Data: foreign}, {Op: "reconcile", Lag: true}}, func(t *testing.T, w *world) {
+			wantData(t, w, xrKey, map[string][]byte{"a": taggedValue("xr1", "t2", "a"), "b": []byte("v1"), "c": []byte("s3cr3t"), "d": []byte("s3cr3t")}, w.uids["xr1"])
+		}},
+		{"foreign-ref-cache-miss-before-own-resource", echoAll(), []step{{Op: "foreignRef", Data: foreign}, {Op: "reconcile", Lag: true}}, func(t *testing.T, w *world) {
+			wantData(t, w, xrKey, map[string][]byte{"a": taggedValue("xr1", "t1", "a"), "b": []byte("v1")}, w.uids["xr1"])
+		}},
+		{"foreign-ref-cache-hit", echoAll(), []step{{Op: "foreignRef", Data: foreign}, rc(0)}, func(t *testing.T, w *world) {
+			wantData(t, w, xrKey, map[string][]byte{"a": taggedValue("xr1", "t1", "a"), "b": []byte("v1")}, w.uids["xr1"])
 		}},
 	}...)
 	for _, row := range rows {
